@@ -331,6 +331,57 @@ def lazy_routers(routes):
     return {"wsgi": wsgi.Router(*[(r, wsgi_endpoint(i)) for i, r in enumerate(routes)]), "asgi": asgi.Router(*[(r, asgi_endpoint(i)) for i, r in enumerate(routes)])}
 
 
+def odd_endpoints(ctx):
+    """endpoints that raise (the error goes to the server as it is: it is no reason to try the next route or to answer 404) and
+    endpoints that are falsy objects (dispatched to like any other)"""
+    from baize import asgi, wsgi
+    from vf.props.c09 import FalsyApp
+    for exc_cls in (TypeError, ValueError, KeyError, LookupError, AttributeError):
+        for iface, ns in (("wsgi", wsgi), ("asgi", asgi)):
+            later = {}
+            if iface == "wsgi":
+                def bad(environ, start_response, exc_cls=exc_cls):
+                    raise exc_cls("endpoint failed")
+
+                def other(environ, start_response):
+                    later["ran"] = 1
+                    start_response("200 OK", [])
+                    return [b"other"]
+            else:
+                async def bad(scope, receive, send, exc_cls=exc_cls):
+                    raise exc_cls("endpoint failed")
+
+                async def other(scope, receive, send):
+                    later["ran"] = 1
+                    await send({"type": "http.response.start", "status": 200, "headers": []})
+                    await send({"type": "http.response.body", "body": b"other"})
+            app = ns.Router(("/n/{id:int}", bad), ("/n/{rest:any}", other), ("/{all:any}", other))
+            req = drivers.Req(path=b"/n/12")
+            res = drivers.run_wsgi(app, drivers.to_environ(req)) if iface == "wsgi" else drivers.run_asgi(app, drivers.to_scope(req))
+            ctx.mon("odd-endpoints")
+            if not isinstance(res.exc, exc_cls) or later:
+                ctx.violation(f"endpoint-exception-not-passed-on|{iface}", {"odd_endpoint": "raises " + exc_cls.__name__, "iface": iface},
+                              f"the endpoint raised {exc_cls.__name__}; the server saw {res.exc!r} / status {res.code}; a later route ran: {bool(later)}")
+    for iface, ns in (("wsgi", wsgi), ("asgi", asgi)):
+        hit = {}
+        if iface == "wsgi":
+            def ok(environ, start_response):
+                hit["pp"] = dict(environ["PATH_PARAMS"])
+                start_response("200 OK", [])
+                return [b"ok"]
+        else:
+            async def ok(scope, receive, send):
+                hit["pp"] = dict(scope["path_params"])
+                await send({"type": "http.response.start", "status": 200, "headers": []})
+                await send({"type": "http.response.body", "body": b"ok"})
+        app = ns.Router(("/n/{id:int}", FalsyApp(ok)))
+        req = drivers.Req(path=b"/n/12")
+        res = drivers.run_wsgi(app, drivers.to_environ(req)) if iface == "wsgi" else drivers.run_asgi(app, drivers.to_scope(req))
+        ctx.mon("odd-endpoints")
+        if hit.get("pp") != {"id": 12} or res.code != 200:
+            ctx.violation(f"falsy-endpoint-not-dispatched|{iface}", {"odd_endpoint": "falsy object", "iface": iface}, f"status {res.code}, exc {res.exc!r}, saw {hit!r}")
+
+
 def through_middleware(ctx, routes, path, outer):
     """the router sits behind a middleware whose handler looks at request.path_params before passing the request on (also below an
     outer router that has bound parameters of its own); the endpoints are request_response views: what a view sees in
@@ -403,6 +454,9 @@ def make(ctx, routes):
 
 def run(ctx):
     rng = ctx.rng("c08")
+    if ctx.shard == 0:
+        odd_endpoints(ctx)
+        ctx.case(("odd-endpoints",))
     if ctx.shard == 0:
         for routes, path in REGRESSION:
             t = make(ctx, routes)
@@ -493,6 +547,10 @@ def run(ctx):
 
 
 def replay(ctx, case):
+    if "odd_endpoint" in case:
+        odd_endpoints(ctx)
+        ctx.case(1)
+        return
     if case.get("through_middleware"):
         through_middleware(ctx, case["routes"], case["path"], case.get("below_outer_router", False))
         ctx.case(1)
